@@ -238,5 +238,35 @@ CHECKS = {
         "note": SPACE_NOTE + " 'Rotation-invariant law on S^3 = Haar measure' is cited, not proved.",
         "technique": "Coq proof of the sampler's structure + bit-exact correspondence under a scripted generator + statistical exploration",
     },
+    "C19": {
+        "category": "translation_validation",
+        "text": "Three-way translation validation with the proved Coq planner model as the reference: every generated scenario (6 problem "
+                "variants x 4 planners x worlds x parameters x seeds) is executed through the Python API (oxmpl_py built from the current "
+                "tree; callbacks use only comparisons and the space's own distance, so their arithmetic is bit-identical) and through the "
+                "Rust core under the logging wrappers; RRT / RRT-Connect / RRT* paths must be equal bit for bit AND the complete sequence of "
+                "validity-callback arguments and answers must be equal (order-sensitive hash); the Rust run is replayed on the Coq model "
+                "(C01-C18 hold of it); Python PRM paths are checked for soundness w.r.t. the Python callbacks. Wrapper constructors, "
+                "maximum extents, canonicalised SO(2) values and distances are compared with the core over the C12 constructor lattice "
+                "(ValueError exactly where the core returns Err). The universally quantified part is inherited from C01-C18; the Python "
+                "layer itself is covered only on the generated scenarios.",
+        "design_ref": "DESIGN.md section 7 C19",
+        "note": PLANNER_NOTE + " PyO3 argument conversion and the Python interpreter are trusted; time limits differ between the two sides only in how many iterations complete (cases where the core timed out are not compared).",
+        "technique": "translation validation: Python API vs Rust core vs proved Coq model on generated scenarios",
+    },
+    "C20": {
+        "category": "proof",
+        "text": "Theorems C20_* (coq/Props/C20.v) on the glue model with fallbacks RE-EXTRACTED from oxmpl-py/src/base/{state_validity_checker,"
+                "goal}.rs on every run: every error branch returns false (C20_policy_fail_closed fails to compile if one is flipped); a state "
+                "is valid / satisfying only if the callback returned the Python bool True; raising, None and non-bools are seen exactly as "
+                "False; the planner functions depend on a callback only through those answers (congruence, via functional extensionality), so "
+                "'fails on region X' and 'returns False on X' give identical results for every call history; with C01 no returned path "
+                "contains a state on which the callback failed. Correspondence: Python runs with raise / None / non-bool / string faults on a "
+                "region, against Python runs returning False there, against the Rust mirror and the model; faults at the k-th call "
+                "(k in 1,2,3,5,8) are covered by the Python differential only (a callback that depends on the call number is not a function "
+                "of the state). The JS glue cannot be executed here; its fallbacks are extracted and reported only.",
+        "design_ref": "DESIGN.md section 7 C20",
+        "note": PLANNER_NOTE + " Axiom used: FunctionalExtensionality.functional_extensionality_dep (standard library).",
+        "technique": "Coq proof (glue model with regenerated policy, congruence) + Python fault-injection differential",
+    },
 }
 NOT_APPLICABLE = {}
